@@ -142,8 +142,8 @@ FieldPlans(F, raw, small) ==
             \cup (IF raw /\ ~small THEN {VMap(TRUE, FALSE, [key \in {"k1"} |-> ab[1]], ett, FALSE)} ELSE {})
        [] OTHER -> \* obj
             LET S == MsgPlans(SubOf(F), raw /\ ~small, small)
-            IN S \cup {[Pick(S) EXCEPT !.null = TRUE, !.unk = FALSE, !.attrs = EmptyFn]}
-                 \cup (IF small THEN {} ELSE {[Pick(S) EXCEPT !.null = FALSE, !.unk = TRUE, !.attrs = EmptyFn]})
+            IN S \cup {[Pick(S) EXCEPT !.null = TRUE, !.unk = FALSE, !.attrs = EmptyFn, !.attrsnil = TRUE]}
+                 \cup (IF small THEN {} ELSE {[Pick(S) EXCEPT !.null = FALSE, !.unk = TRUE, !.attrs = EmptyFn, !.attrsnil = TRUE]})
                  \cup (IF raw /\ ~small THEN {[x EXCEPT !.null = TRUE] : x \in S} ELSE {})
 
 PlanProduct(M, i, acc, raw, small) ==
@@ -151,8 +151,77 @@ PlanProduct(M, i, acc, raw, small) ==
   ELSE LET F == M.fields[i]
        IN PlanProduct(M, i + 1, {[attrs EXCEPT ![F.attr] = v] : attrs \in acc, v \in FieldPlans(F, raw, small)}, raw, small)
 
-\* injected attributes are null in every generated plan
+\* injected attributes are null in every generated plan.  Messages with more than two fields are covered
+\* diagonally: around an all-null and an all-known base every field takes each of its values in turn (the
+\* emitted code is a concatenation of per-field blocks; couplings exist only inside oneof groups, and both
+\* bases exercise them), smaller messages by the full product.
 MsgPlans(M, raw, small) ==
   LET base == [a \in DOMAIN M.tt.at |-> NullOf(M.tt.at[a])]
-  IN {VObj(FALSE, FALSE, attrs, M.tt.at, FALSE) : attrs \in PlanProduct(M, 1, {base}, raw, small)}
+      wide == Len(M.fields) > 2
+      sm == small \/ wide
+      firstKnown(F) == LET K == {v \in FieldPlans(F, FALSE, TRUE) : Known(v)} IN IF K = {} THEN Pick(FieldPlans(F, FALSE, TRUE)) ELSE Pick(K)
+      allNull == [a \in DOMAIN base |-> IF a \in AttrNames(M) THEN Pick({v \in FieldPlans(FieldByAttr(M, a), FALSE, TRUE) : ~Known(v)} \cup {base[a]}) ELSE base[a]]
+      nullBase == [a \in DOMAIN base |-> IF a \in AttrNames(M) /\ \E v \in FieldPlans(FieldByAttr(M, a), FALSE, TRUE) : HasFlags(v) /\ v.null
+                                          THEN Pick({v \in FieldPlans(FieldByAttr(M, a), FALSE, TRUE) : v.null}) ELSE base[a]]
+      knownBase == [a \in DOMAIN base |-> IF a \in AttrNames(M) THEN firstKnown(FieldByAttr(M, a)) ELSE base[a]]
+      diag == {nullBase, knownBase}
+              \cup UNION {{[b EXCEPT ![M.fields[i].attr] = v] : b \in {nullBase, knownBase}, v \in FieldPlans(M.fields[i], raw, sm)} : i \in DOMAIN M.fields}
+  IN IF wide THEN {VObj(FALSE, FALSE, attrs, M.tt.at, FALSE) : attrs \in diag}
+     ELSE {VObj(FALSE, FALSE, attrs, M.tt.at, FALSE) : attrs \in PlanProduct(M, 1, {base}, raw, small)}
+
+\* null / unknown objects as the framework decodes them: no Attrs map
+DecodedForm(tv) == IF tv.k = "obj" /\ ~Known(tv) THEN [tv EXCEPT !.attrs = EmptyFn, !.attrsnil = TRUE] ELSE tv
+
+\* ------------------------------------------------------------------------
+\* prior contents of a target struct (C05): zero, and values with every unit set
+PriorVals(M, deep) == {M.zero} \cup MsgVals(M, FALSE, ~deep)
+
+\* ------------------------------------------------------------------------
+\* malformed inputs (C06): every single corruption of a conforming object, at any depth
+OtherPrim(F) == IF F.tfty = "bool" THEN VPrim("string", FALSE, FALSE, "") ELSE VPrim("bool", FALSE, FALSE, "false")
+
+RECURSIVE CorruptObj(_, _)
+CorruptObj(M, tv) ==
+  IF tv.k # "obj" \/ ~Known(tv) THEN {}
+  ELSE {[tv EXCEPT !.attrsnil = TRUE, !.attrs = EmptyFn]}
+    \cup UNION {
+      LET F == M.fields[i]
+          a == tv.attrs[F.attr]
+          put(x) == [tv EXCEPT !.attrs = [@ EXCEPT ![F.attr] = x]]
+      IN {[tv EXCEPT !.attrs = Drop(@, F.attr)], put(VBad), put(VNilIf)}
+         \cup (IF F.kind = "prim" THEN {put(OtherPrim(F))} ELSE {})
+         \cup (IF F.kind = "obj" THEN {put(c) : c \in CorruptObj(SubOf(F), a)} ELSE {})
+         \cup (IF F.kind \in {"primlist", "objlist"} /\ a.k = "list" /\ Known(a) THEN
+                 {put([a EXCEPT !.elems = <<>>, !.elemsnil = TRUE])}
+                 \cup UNION {{put([a EXCEPT !.elems[j] = VBad]), put([a EXCEPT !.elems[j] = VNilIf])} : j \in DOMAIN a.elems}
+                 \cup (IF F.kind = "objlist" THEN UNION {{put([a EXCEPT !.elems[j] = c]) : c \in CorruptObj(SubOf(F), a.elems[j])} : j \in DOMAIN a.elems} ELSE {})
+               ELSE {})
+         \cup (IF F.kind \in {"primmap", "objmap"} /\ a.k = "map" /\ Known(a) THEN
+                 {put([a EXCEPT !.mels = EmptyFn, !.elemsnil = TRUE])}
+                 \cup UNION {{put([a EXCEPT !.mels[key] = VBad]), put([a EXCEPT !.mels[key] = VNilIf])} : key \in DOMAIN a.mels}
+                 \cup (IF F.kind = "objmap" THEN UNION {{put([a EXCEPT !.mels[key] = c]) : c \in CorruptObj(SubOf(F), a.mels[key])} : key \in DOMAIN a.mels} ELSE {})
+               ELSE {})
+      : i \in {j \in DOMAIN M.fields : M.fields[j].attr \in DOMAIN tv.attrs} }
+
+\* base plans to corrupt: fully known rich ones and the all-null one
+CorruptBases(M) == LET P == MsgPlans(M, FALSE, TRUE) IN P
+
+Corrupted(M, deep) ==
+  LET one == UNION {CorruptObj(M, b) : b \in CorruptBases(M)}
+  IN IF deep THEN one \cup UNION {CorruptObj(M, c) : c \in one} ELSE one
+
+\* ------------------------------------------------------------------------
+\* targets with attribute types removed (C06, CopyTo): at the top level, in nested objects, in list / map
+\* element types
+RECURSIVE Remove1(_)
+Remove1(t) ==
+  CASE t.k = "obj" -> {TObj(Drop(t.at, n)) : n \in DOMAIN t.at}
+                      \cup UNION {{TObj([t.at EXCEPT ![n] = x]) : x \in Remove1(t.at[n])} : n \in DOMAIN t.at}
+    [] t.k \in {"list", "map"} -> {[t EXCEPT !.et = x] : x \in Remove1(t.et)}
+    [] OTHER -> {}
+
+Reduced(M, deep) ==
+  LET one == Remove1(M.tt)
+      two == IF deep THEN UNION {Remove1(t) : t \in one} ELSE {}
+  IN {EmptyObject(t.at) : t \in one \cup two}
 =============================================================================
